@@ -50,6 +50,8 @@ class Ctx:
         self._mf = open(marker_path, "r+b")
         self._mm = mmap.mmap(self._mf.fileno(), MARK_SIZE)
         self.lib = None
+        self._dg = None
+        self._dgf = open(out_path + ".digests", "a")
         self.max_samples = 3
         self.rng = random.Random("%s/%s/%s" % (job["seed"], job["unit"], json.dumps(job.get("params", {}), sort_keys=True)))
 
@@ -60,6 +62,7 @@ class Ctx:
     def case(self, desc, cls=None, nontrivial=True):
         """Announce the next case. Returns False if the case must be skipped
         (resuming after a crash / replaying a single case)."""
+        self._flush_digest()
         self.idx += 1
         if self.idx <= self.resume_after:
             return False
@@ -81,6 +84,22 @@ class Ctx:
         self._desc = desc
         return True
 
+    def digest(self, *vals):
+        """Fold the observable results of the current case (outputs, return codes) into its
+        transcript digest; C07 (two-fill) and C19 (configurations) compare digests case by case."""
+        if self._dg is None:
+            self._dg = hashlib.blake2b(digest_size=8)
+        for v in vals:
+            if isinstance(v, (bytes, bytearray)):
+                self._dg.update(b"b%d:" % len(v) + bytes(v))
+            else:
+                self._dg.update(("s:" + repr(v)).encode())
+
+    def _flush_digest(self):
+        if self._dg is not None:
+            self._dgf.write("%d %s\n" % (self.idx, self._dg.hexdigest()))
+            self._dg = None
+
     def count(self, n, cls=None, distinct=None):
         """Account for n cases executed in bulk by a C harness."""
         self.n_eval += n
@@ -98,12 +117,15 @@ class Ctx:
         self.extra[k] = v
 
     def finish(self):
+        self._flush_digest()
+        self._dgf.close()
         hp = self._out.name + ".hashes"
         with open(hp, "w") as f:
             for h in self.hashes:
                 f.write("%016x\n" % h)
         self.emit({"t": "done", "evaluations": self.n_eval, "classes": dict(self.classes),
-                   "samples": self.samples, "extra": self.extra, "hashes": hp, "nhash": len(self.hashes)})
+                   "samples": self.samples, "extra": self.extra, "hashes": hp, "nhash": len(self.hashes),
+                   "digests": self._dgf.name})
 
 
 def _jd(o):
@@ -135,6 +157,7 @@ def worker_main(argv):
         if job["cfg"] != "none":
             from . import bee2
             ctx.lib = bee2.Lib(job["cfg"], job.get("libdir"))
+            ctx.lib.fill = job.get("fill", 0xA5)
         try:
             fn(ctx)
         except StopIteration:
@@ -252,6 +275,7 @@ class Run:
         self.samples = []
         self.extra = {}
         self.hash_files = []
+        self.digest_files = {}
         self.bulk_distinct = 0
         self.harness_errors = []
         self.unit_stats = {}
@@ -346,6 +370,8 @@ class Run:
                     for s in o["samples"][:2]:
                         self.samples.append({"unit": job["unit"], "cfg": job["cfg"], "case": s})
                 self.hash_files.append(o["hashes"])
+                self.digest_files.setdefault((job["unit"], json.dumps(job.get("params", {}), sort_keys=True)), []).append(
+                    (job["cfg"], job.get("fill", 0xA5), o.get("digests"), job))
                 for k, v in o["extra"].items():
                     if k == "bulk_distinct":
                         self.bulk_distinct += v
@@ -407,6 +433,36 @@ class Run:
         nj["resume_after"] = idx
         nj["restarts"] = job["restarts"] + 1
         return nj
+
+    def compare_digests(self, keyprefix, what):
+        """For every (unit, params) executed under several (cfg, fill) variants compare the per-case
+        transcript digests; a difference is a violation keyed by unit and the pair of variants."""
+        compared = 0
+        for (unit, pj), variants in sorted(self.digest_files.items()):
+            if len(variants) < 2:
+                continue
+            tables = []
+            for cfg, fill, path, job in variants:
+                d = {}
+                if path and os.path.exists(path):
+                    for line in open(path):
+                        a, b = line.split()
+                        d[int(a)] = b
+                tables.append((cfg, fill, d, job))
+            base = tables[0]
+            for other in tables[1:]:
+                common = set(base[2]) & set(other[2])
+                compared += len(common)
+                bad = sorted(i for i in common if base[2][i] != other[2][i])
+                if bad:
+                    va = "%s/fill%02x" % (base[0], base[1])
+                    vb = "%s/fill%02x" % (other[0], other[1])
+                    job = dict(_jobkey(other[3]))
+                    self.add_violation("%s:%s:%s-vs-%s" % (keyprefix, unit, va, vb),
+                                       "%s: %d case(s) differ between %s and %s (first idx %d)" % (what, len(bad), va, vb, bad[0]),
+                                       {"job": job, "idx": bad[0], "case": None, "detail": {"differing_idx": bad[:20]},
+                                        "digest_pair": [_jobkey(base[3]), _jobkey(other[3])]})
+        return compared
 
     # -- verdicts -----------------------------------------------------------
     def add_violation(self, key, what, info):
@@ -492,7 +548,7 @@ class Run:
 
 
 def _jobkey(job):
-    return {k: job[k] for k in ("cfg", "unit", "params", "seed", "tier") if k in job}
+    return {k: job[k] for k in ("cfg", "unit", "params", "seed", "tier", "fill") if k in job}
 
 
 def replay(prop, path):
